@@ -118,6 +118,8 @@ def main(argv):
     try:
         env.assert_chameleon_origin()
         mod = importlib.import_module('checks.' + prop.lower())
+        if os.environ.get('VERIF_DEBUG_SHARD'):
+            ctx.mon('shards-run-in-debug-mode')
         if getattr(mod, 'HOSTILE_HISTORY', True):
             # every shard starts after a fixed set of hostile predecessor compilations / renderings (vlib/history.py)
             from vlib import history
